@@ -8,7 +8,7 @@ var hostile = []string{
 	"/*", "*/", "`", "\"", "'", "case", "func", "package", "import", "{", "}", "(", ")", "[", "]",
 	"\x00", "\xff", "\xef\xbb\xbf", "//", "\n", "\r\n", ";", "...", "<-", ":=", "type", "struct", "interface",
 	"//line x.go:1\n", "/*line :0*/", "package p\n", "import \"C\"\n", "0x", "1e", "'\\", "\\", "go", "else", "select", "~", "[T any]", "\t", " ",
-	" ", "\xe2\x80", "label:", "goto", "fallthrough", "chan<-", "var _ = ", "=", ",", ".", "//go:build x\n",
+	" ", "\xe2\x80", "label:", "/vendor", "vendor/", "\"a/vendor\"", "goto", "fallthrough", "chan<-", "var _ = ", "=", ",", ".", "//go:build x\n",
 }
 
 // Mutate is G-BYTES: structured mutation of a (usually valid) source into (usually) malformed
